@@ -121,12 +121,49 @@ func (g *ExprGen) Step(depth int, predChance int) *Stp {
 func (g *ExprGen) Steps(depth, n, predChance int) []*Stp {
 	var ss []*Stp
 	for i := 0; i < n; i++ {
-		if i > 0 && g.R.Chance(1, 5) || (i == 0 && n > 1 && g.R.Chance(1, 6)) {
+		// after a reverse-axis step the input of // arrives in reverse document order: make that common
+		afterReverse := i > 0 && reverseAxes[ss[len(ss)-1].Axis] && g.R.Chance(1, 2)
+		if afterReverse || i > 0 && g.R.Chance(1, 5) || (i == 0 && n > 1 && g.R.Chance(1, 6)) {
 			ss = append(ss, &Stp{Axis: "descendant-or-self", Test: NodeTest{Kind: "node"}, Abbrev: true})
 		}
 		ss = append(ss, g.Step(depth, predChance))
 	}
 	return ss
+}
+
+var reverseAxes = map[string]bool{"ancestor": true, "ancestor-or-self": true, "preceding": true, "preceding-sibling": true}
+
+// a number-valued predicate that depends on the context node (several positions can match)
+func (g *ExprGen) CtxNumber() Expr {
+	r := g.R
+	one := func() *EPath { return &EPath{Steps: []*Stp{g.Step(0, 0)}} }
+	switch r.Intn(8) {
+	case 0:
+		return call("position")
+	case 1:
+		return call("count", one())
+	case 2:
+		return call("number", &EPath{Steps: []*Stp{{Axis: "attribute", Test: NodeTest{Kind: "any"}, Abbrev: true}}})
+	case 3:
+		return bin("+", call("count", one()), num("1"))
+	case 4:
+		return bin("-", bin("+", call("last"), num("1")), call("position"))
+	case 5:
+		return call("string-length")
+	case 6:
+		return call("number", one())
+	}
+	return call("count", &EPath{Steps: []*Stp{{Axis: pick(r, []string{"child", "preceding-sibling", "ancestor", "attribute"}), Test: NodeTest{Kind: pick(r, []string{"any", "node"})}}}})
+}
+
+// a filter over a bound node-set inside a predicate: the binding is read again while the step iterates
+func (g *ExprGen) VarFilterPred(name string) Expr {
+	r := g.R
+	f := &EFilter{E: &EVar{RawQ{Local: name}}, Preds: []Expr{pick(r, []Expr{num("1"), num("2"), call("last")})}}
+	if r.Chance(1, 2) {
+		return f
+	}
+	return bin("=", call("count", bin("|", f, &EPath{Steps: []*Stp{{Axis: "parent", Test: NodeTest{Kind: "node"}, Abbrev: true}}})), num("1"))
 }
 
 func (g *ExprGen) Path(depth int, predChance int) *EPath {
@@ -162,9 +199,16 @@ func (g *ExprGen) PosNumber() Expr {
 
 func (g *ExprGen) Pred(depth int) Expr {
 	r := g.R
-	switch r.Intn(14) {
+	switch r.Intn(17) {
 	case 0, 1, 2:
 		return g.PosNumber()
+	case 14, 15:
+		return g.CtxNumber()
+	case 16:
+		if len(g.NodeVars) > 0 {
+			return g.VarFilterPred(pick(r, g.NodeVars))
+		}
+		return g.CtxNumber()
 	case 3:
 		return call("last")
 	case 4:
@@ -299,7 +343,8 @@ var numberStrings = []string{"1", "12", " 12 ", "\t12\n", "-1", "- 1", "-", ".",
 	"inf", "nan", "NaN", "１", " 12", "12 ", "1 2", "", " ", "abc", "1a", "--1", "-0", "0", "0.0", "-0.0", "123456789012345678901234567890", "0.1", "0.30000000000000004",
 	"10000000000000000000000000000000000000000000000000000000000000000000000000000000000000000000000000000000000000000000000000000000000000000000000000000000000000000000000000000000000000000000000000000000000000000000000000000000000000000000000000000000000000000000000000000000000000000000000000000000000000000000000000000000000000000000000000000000000000000000000000000000000000000000000000000000000000000", "9007199254740993", "179769313486231580793728971405303415079934132710037826936173778980444968292764750946649017977587207096330286416692887910946555547851940402630657488671505820681908902000708383676273854845817711531764475730270069855571366959622842914819860834936475292719074168444365510704342711559699508093042880177904174497791.9", "4.9e-324", "0.000000000000000000000000000000000000000000000001", "1.",
 	"1.5.2", "1..2", "٣", "1 ", "\r\n7\r\n", "-\t7", "0x1p4", "1d", "1f", "1e", "e1", ".e1", "0.", "-.", "+.5", "2147483648", "4294967296", "1000000000000000000000",
-	"0.5", "-0.5", "1.5", "-1.5", "2.5", "-2.5"}
+	"0.5", "-0.5", "1.5", "-1.5", "2.5", "-2.5",
+	"\u00a05", "5\u00a0", "\u20037", "7\u3000", "\u00852", "\v3", "4\f", "\u00a0 6 \u00a0", "\ufeff8"}
 
 // A number as an expression: a literal when the value has a plain numeral, else a variable.
 func (g *ExprGen) NumLiteralText() string {
